@@ -822,7 +822,7 @@ func c13Oracle(r *c13Run) {
 		res.Viol = append(res.Viol, [2]string{key, fmt.Sprintf(format, a...)})
 	}
 	for _, q := range res.Reqs {
-		readFault, saveBefore, pingFault, otherFault := "", "", "", ""
+		readFault, saveBefore, pingFault, otherFault, lockFault := "", "", "", "", ""
 		for _, f := range q.Faults {
 			switch {
 			case f.Op == "GET":
@@ -831,6 +831,8 @@ func c13Oracle(r *c13Run) {
 				saveBefore = f.Pos + ":" + f.Kind
 			case f.Op == "PING":
 				pingFault = f.Pos + ":" + f.Kind
+			case f.Op == "OBTAIN" && (f.Kind == "err-before" || f.Kind == "lost-reply"):
+				lockFault = f.Pos + ":" + f.Kind
 			}
 			if f.Op != "GET" && f.Kind != "not-obtained-once" {
 				otherFault = f.Pos + ":" + f.Kind
@@ -845,7 +847,12 @@ func c13Oracle(r *c13Run) {
 		if readFault != "" && q.Class == "authenticated" {
 			viol("C13/served-after-failed-session-load", "%s was answered as authenticated (status %d, upstream hits %d) although the session read %s failed", q.What, q.Status, q.Upstream, readFault)
 		}
-		if readFault == "" && otherFault != "" && q.Class == "authenticated" {
+		// nor when the refresh lock could not be taken because the lock operation itself failed (not: was
+		// held by somebody else): what the request goes on to do — reload, refresh, save — is only safe under the lock
+		if lockFault != "" && q.Class == "authenticated" {
+			viol("C13/served-after-failed-lock-operation", "%s was answered as authenticated (status %d, upstream hits %d) although taking the refresh lock failed (%s)", q.What, q.Status, q.Upstream, lockFault)
+		}
+		if readFault == "" && lockFault == "" && otherFault != "" && q.Class == "authenticated" {
 			// the statement's first sentence read strictly would forbid this too; the session itself
 			// was loaded intact, so the reading of DESIGN.md §4 admits it
 			res.Ambiguous = append(res.Ambiguous, q.What+" served after "+otherFault)
